@@ -16,8 +16,8 @@
    Specification (SpkiProofs.v: sp_add, sp_remove, sp_src_remove, sp_get_all, sp_search_by_ski, sp_copy,
    sp_notify_diff, replay): a table is a duplicate-free list of (asn, ski, spki, src) records.
 
-   Status.  The callback clause of C10 ("... including removals by source") is FALSE of the code:
-   spki_table_src_remove calls no update_fp.  C10_full is the whole property; C10_refuted refutes it with
+   Status.  At the pinned commit the callback clause of C10 ("... including removals by source") was FALSE of the
+   code: spki_table_src_remove called no update_fp (repaired in /repo by fix 4808153).  C10_full is the whole property; before fix 4808153 it was refuted (Spki/SpkiProofs.v: refuted_when_silent) with
    the witness replayed on the C code by tools/props/C10.py (corpus/C10/00_src_remove_no_callback.txt);
    C10_refines_all_histories is everything else, for all histories; C10_full_of_fix / C10_full_for_fixed_model
    show the whole property holds as soon as remove-by-source notifies (SpkiModel.SRC_REMOVE_NOTIFIES). *)
@@ -164,9 +164,9 @@ Proof. exact refines_all_histories. Qed.
 Theorem C10_spec_is_set : forall (ops : list op) (i : nat), NoDup (fst (srun ops sinit) i).
 Proof. exact spec_is_set. Qed.
 
-(* ---- the whole property, refuted for the code as it is ---- *)
-Theorem C10_refuted : ~ C10_full.
-Proof. exact (refuted_when_silent eq_refl). Qed.
+(* ---- the whole property (holds since /repo fix 4808153: remove-by-source notifies) ---- *)
+Theorem C10_full_holds : C10_full.
+Proof. exact (full_of_fix eq_refl). Qed.
 
 (* ... and true as soon as remove-by-source notifies *)
 Theorem C10_full_of_fix : SRC_REMOVE_NOTIFIES = true -> C10_full.
@@ -203,7 +203,7 @@ Print Assumptions C10_notify_diff.
 Print Assumptions C10_callbacks.
 Print Assumptions C10_refines_all_histories.
 Print Assumptions C10_spec_is_set.
-Print Assumptions C10_refuted.
+Print Assumptions C10_full_holds.
 Print Assumptions C10_full_of_fix.
 Print Assumptions C10_full_for_fixed_model.
 Print Assumptions C10_code_constants.
